@@ -26,6 +26,7 @@ class SAbsStr(str):
         o.has = {}
         o.examined = set()
         o.parent = parent
+        o.children = []
         if parent is None:
             eng.register(name, "obj", o)
             eng.tokens[tok] = (o, "")
@@ -44,7 +45,11 @@ class SAbsStr(str):
             if len(self.has) > 1:
                 self.eng.solver.add(z3.Sum([z3.If(x, 1, 0) for x in self.has.values()]) <= self.L)
             if self.parent is not None:
-                self.eng.solver.add(z3.Implies(b, self.parent.flag(ch)))
+                par = self.parent
+                self.eng.solver.add(z3.Implies(b, par.flag(ch)))
+                # characters the parent contains but this prefix does not must sit behind the prefix
+                late = [z3.If(z3.And(par.flag(c), z3.Not(f)), 1, 0) for c, f in self.has.items()]
+                self.eng.solver.add(par.L >= z3.If(z3.Sum(late) > 0, self.stop + z3.Sum(late), 0))
         return self.has[ch]
 
     def __contains__(self, sub):
@@ -71,6 +76,8 @@ class SAbsStr(str):
     def __getitem__(self, i):
         if isinstance(i, slice) and i.step is None and (i.start in (None, 0)) and isinstance(i.stop, int) and i.stop >= 0:
             sub = SAbsStr(self.eng, f"{self.name}[:{i.stop}]", parent=self)
+            sub.stop = i.stop
+            self.children.append(sub)
             self.eng.solver.add(sub.L == z3.If(self.L < i.stop, self.L, i.stop))
             self.eng.tokens[sub.tok] = (sub, "")
             return sub
@@ -103,8 +110,14 @@ class SAbsStr(str):
     def concretize(self, model):
         n = model.eval(self.L, model_completion=True).as_long()
         chars = [ch for ch, b in self.has.items() if z3.is_true(model.eval(b, model_completion=True))]
+        late = []
+        for sub in self.children:
+            for ch, b in sub.has.items():
+                if ch in chars and not z3.is_true(model.eval(b, model_completion=True)) and ch not in late:
+                    late.append(ch)
+        early = [ch for ch in chars if ch not in late]
         fill = "a"
-        s = "".join(chars) + fill * max(0, n - len(chars))
+        s = "".join(early) + fill * max(0, n - len(early) - len(late)) + "".join(late)
         return {"str": s}
 
 
